@@ -240,8 +240,44 @@ def h_sdmx_tables(env):
         env.equal("sdmx_power_n%d" % n, v[n], s1[n] * rho ** (1 + env.const(Fraction(n, 3))))
 
 
+def h_repeat(env, kind):
+    """the reported UEG vector and the recommended normalisers do not depend on what was called before
+    (repeat call on the same object, then a fresh object of the same class)"""
+    st = env.m.settings
+    rho, u = _rho(env)
+    env.eps_zero()
+
+    def mk():
+        if kind == "sdmxfull":
+            return st.SDMXFullSettings({1.0: ([0, 1, 2], [3, 3, 0, 0]), 1.5: ([0, 1, 2], [3, 2, 0, 0]), 2.0: ([0, 1], [2, 1, 0, 0])})
+        if kind == "sdmxg":
+            return st.SDMXGSettings([0, 1, 2], 2)
+        if kind == "vi":
+            return st.NLDFSettingsVI("MGGA", [1.0, 0.0, 0.03125], "one", ["se_ap", "se_r2"], ["se_grad"], [(0, 0)])
+        return st.NLDFSettingsVJ("MGGA", [1.0, 0.0, 0.03125], "expnt", ["se", "se_ar2"], [[2.0, 0.0, 0.04], [1.0, 0.0, 0.03]])
+    a = mk()
+    n0 = [x.get_ueg(rho) if x is not None else 1 for x in a.get_reasonable_normalizer()]
+    v1 = list(a.ueg_vector(rho))
+    v2 = list(a.ueg_vector(rho))
+    v3 = list(a.ueg_vector(rho * 3))
+    v4 = list(a.ueg_vector(rho))
+    n1 = [x.get_ueg(rho) if x is not None else 1 for x in a.get_reasonable_normalizer()]
+    b = mk()
+    v5 = list(b.ueg_vector(rho))
+    n2 = [x.get_ueg(rho) if x is not None else 1 for x in b.get_reasonable_normalizer()]
+    env.check("lengths", len(v1) == len(v2) == len(v4) == len(v5) == a.nfeat == len(n0) == len(n1) == len(n2))
+    for i in range(len(v1)):
+        env.equal("second_call_entry%d" % i, v2[i], v1[i])
+        env.equal("after_other_density_entry%d" % i, v4[i], v1[i])
+        env.equal("fresh_object_entry%d" % i, v5[i], v1[i])
+        env.equal("normalizer_before_vs_after_entry%d" % i, n1[i], n0[i])
+        env.equal("normalizer_fresh_object_entry%d" % i, n2[i], n0[i])
+
+
 def tasks(tier):
     out = []
+    for kind in ("sdmxfull", "sdmxg", "vi", "vj"):
+        out.append(Task("repeat/%s" % kind, h_repeat, dict(kind=kind)))
     for mode in ("nst", "npa", "ns", "np"):
         out.append(Task("semilocal/%s" % mode, h_semilocal, dict(mode=mode)))
         if tier == "thorough":
